@@ -869,7 +869,7 @@ void mmd_export_token_latex(DString * out, const char * source, token * t, scrat
 			print_const("\\begin{minipage}{\\linewidth}\n\\setlength{\\tymax}{0.5\\linewidth}\n\\centering\n\\small\n");
 
 			// Are we followed by a caption?
-			if (table_has_caption(t)) {
+			if (table_has_caption(t, source)) {
 				temp_token = t->next->child;
 
 				if (temp_token->next &&
